@@ -5,7 +5,9 @@ binary64 numbers themselves, None is null):
   ["core", ops, ni]       ops: ["pin_mode",p,m] ["digital_write",p,v] ["analog_write",p,v]
                                ["digital_read",p] ["analog_read",p];  the three dicts are
                                cleared first; ni = list of pins to watch for interference
-  ["map", x, fl, fh, tl, th]
+  ["map", x, fl, fh, tl, th]          -> [status, value | exception name, type name, float.hex() | None]
+  ["corex", ops]          Core history whose pins may be any JSON value (True, 7.0, 7.5, None, [7] ...);
+                          keys of the reported state are canonicalised the way dict lookup identifies them
   ["sleep", d, patched]   patched: also run once through a monkeypatched time.sleep
   ["button", pin, click, provider, ops]     ops: ["set", v] | ["poll", sample]
   ["pot", pin, provider, samples]
@@ -67,16 +69,49 @@ def do_core(ops, ni):
     return {"results": results, "state": state, "odd_keys": odd, "interference": interference}
 
 
+def fhex(v):
+    return v.hex() if isinstance(v, float) else None
+
+
 def do_map(args):
     r = call(utils.map, *args)
-    return [r[0], jsonable(r[1]), type(r[1]).__name__]
+    return [r[0], jsonable(r[1]), type(r[1]).__name__, fhex(r[1])]
+
+
+def canon_key(k):
+    """the dict key as Python's hash/== identifies it: True is 1, 7.0 is 7"""
+    if isinstance(k, bool):
+        return int(k)
+    if isinstance(k, float) and k == k and k not in (float("inf"), float("-inf")):
+        if k == int(k):
+            return int(k)
+        n, d = k.as_integer_ratio()
+        return ["float", n, d]
+    if k is None:
+        return ["none"]
+    if isinstance(k, (int, str)):
+        return k
+    return ["other", repr(k)[:40]]
+
+
+def do_corex(ops):
+    core._pin_modes.clear()
+    core._digital_values.clear()
+    core._analog_values.clear()
+    results = []
+    for op in ops:
+        r = call(CORE_FUN[op[0]], *op[1:])
+        results.append([r[0], jsonable(r[1])])
+    state = {name: [[canon_key(k), jsonable(v)] for k, v in d.items()]
+             for name, d in (("modes", core._pin_modes), ("digital", core._digital_values), ("analog", core._analog_values))}
+    return {"results": results, "state": state}
 
 
 def do_sleep(d, patched):
     out = {}
     rec = []
     r = call(utils.sleep, d, sleep_func=rec.append)
-    out["func"] = [r[0], r[1] if r[0] == "raise" else None, [jsonable(x) for x in rec]]
+    out["func"] = [r[0], r[1] if r[0] == "raise" else None, [jsonable(x) for x in rec], [fhex(x) for x in rec]]
     if patched:
         rec2 = []
         real = time.sleep
@@ -85,7 +120,7 @@ def do_sleep(d, patched):
             r2 = call(utils.sleep, d)
         finally:
             time.sleep = real
-        out["patched"] = [r2[0], r2[1] if r2[0] == "raise" else None, [jsonable(x) for x in rec2]]
+        out["patched"] = [r2[0], r2[1] if r2[0] == "raise" else None, [jsonable(x) for x in rec2], [fhex(x) for x in rec2]]
     return out
 
 
@@ -217,6 +252,8 @@ def main():
             out.append(do_core(c[1], c[2] if len(c) > 2 else None))
         elif k == "map":
             out.append(do_map(c[1:6]))
+        elif k == "corex":
+            out.append(do_corex(c[1]))
         elif k == "sleep":
             out.append(do_sleep(c[1], c[2]))
         elif k == "button":
